@@ -140,6 +140,43 @@ func genC18(tier string, r *rng) {
 		sig := r.bytes([]int{0, 1, 2, 3, 32, 64, 256, 512}[r.intn(8)])
 		emitJ(enc([]byte(h), r.intn(4)) + "." + enc([]byte(p), r.intn(4)) + "." + enc(sig, r.intn(4)))
 	}
+	// non-canonical but valid segment texts: line-wrapped base64 (CR/LF are ignored by the decoders) and
+	// final characters with non-zero unused bits; the shown signature must still be base64url of the RAW bytes
+	wrapAt := func(t string, w int, eol string) string {
+		var sb strings.Builder
+		for i := 0; i < len(t); i++ {
+			sb.WriteByte(t[i])
+			if (i+1)%w == 0 && i+1 < len(t) {
+				sb.WriteString(eol)
+			}
+		}
+		return sb.String()
+	}
+	for i := 0; i < 60; i++ {
+		h := enc([]byte(`{"alg":"HS256","typ":"JWT"}`), r.intn(4))
+		p := enc([]byte(`{"sub":"x","exp":1700000000}`), r.intn(4))
+		sig := r.bytes([]int{1, 2, 4, 5, 31, 32, 64}[r.intn(7)])
+		s := enc(sig, r.intn(4))
+		eol := []string{"\n", "\r\n"}[i%2]
+		switch i % 4 {
+		case 0:
+			s = wrapAt(s, 4+r.intn(8), eol)
+		case 1:
+			h, p, s = wrapAt(h, 8, eol), wrapAt(p, 8, eol), wrapAt(s, 8, eol)
+		case 2: // flip unused trailing bits of an unpadded 2- or 3-character final quantum
+			raw := base64.RawURLEncoding.EncodeToString(sig)
+			if len(raw)%4 != 0 {
+				const alpha = "ABCDEFGHIJKLMNOPQRSTUVWXYZabcdefghijklmnopqrstuvwxyz0123456789-_"
+				idx := strings.IndexByte(alpha, raw[len(raw)-1])
+				s = raw[:len(raw)-1] + string(alpha[idx|1])
+			}
+		default:
+			s = s + eol
+		}
+		emitJ(h + "." + p + "." + s)
+	}
+	emitJ(enc([]byte(`{"alg":"none"}`), 1) + "." + enc([]byte(`{}`), 1) + ".QR")
+	emitJ(enc([]byte(`{"alg":"none"}`), 1) + "." + enc([]byte(`{}`), 1) + ".QUJ\nD")
 	// every registered name alone with a string, a number, an empty string; every algorithm
 	for _, k := range reg {
 		for _, v := range []string{"\"v\"", "\"\"", "1700000000", "\"1700000000\"", "null", "[\"v\"]"} {
